@@ -166,6 +166,7 @@ func (proj *Project) saveIndex() error {
 		return err
 	}
 	defer f.Close()
+	verifPoint("saveIndex.created", nil)
 
 	index := index{
 		Flags:   make([]*Flag, 0, len(proj.args)),
@@ -185,5 +186,6 @@ func (proj *Project) saveIndex() error {
 
 	enc := json.NewEncoder(f)
 	enc.SetIndent("", "    ")
+	defer func() { verifPoint("saveIndex.encoded", nil) }()
 	return enc.Encode(index)
 }
